@@ -324,7 +324,7 @@ func genCase(t *rapid.T) (Case, []string) {
 }
 
 func TestGradient(t *testing.T) {
-	harness.Rapid(t, harness.N(80000, 16*200000), func(t *rapid.T) {
+	harness.Rapid(t, harness.N(80000, 16*800000), func(t *rapid.T) {
 		c, labels := genCase(t)
 		nt := false
 		for _, l := range labels {
